@@ -103,6 +103,12 @@ def _work(rng):
         for cfg in cfgs:
             lines.append("c64:p:cc\t%s\tA%s" % (hexec.cfg_ops(cfg), t))
     res = hexec.run(lines, nproc=_G["inner"])
+    # optional second pass: the same line assembled with chunk fitting at the last byte of a 16-byte chunk, so that the
+    # assembler first emits the instruction, replaces it by a 1-byte NOP and assembles it AGAIN from the same parsed line
+    retry = None
+    if _G.get("fit_retry"):
+        rl = ["c64:p:cc\t%s\tk16\to15\tA%s" % (hexec.cfg_ops(cfgs[0]), hexec.esc_fast(c.text)) for c in cases]
+        retry = hexec.run(rl, nproc=_G["inner"])
     blobs = set()
     for obs in res:
         if obs and obs[-1].startswith("A:"):
@@ -137,6 +143,17 @@ def _work(rng):
         if group_check is not None:
             for gi, more in (group_check(c, per) or {}).items():
                 per[gi] = (per[gi][0], per[gi][1] | more, per[gi][2])
+        if retry is not None and per[0][2] and not per[0][1] and "must_reject" not in c.flags:
+            ro = retry[ci]
+            plain = per[0][2]
+            if len(plain) // 2 < 16:
+                if hexec.is_crash(ro):
+                    per[0] = (per[0][0], per[0][1] | {"refit-crash"}, per[0][2])
+                else:
+                    ra = hexec.Asm(ro[-1])
+                    want = ("90" + plain) if len(plain) // 2 >= 2 else plain     # a 1-byte instruction still fits
+                    if ra.ret != 0 or ra.hex[:2 * max(ra.off - 15, 0)] != want:
+                        per[0] = (per[0][0], per[0][1] | {"refit-differs"}, per[0][2])
         for gi, (cfg, disc, hx) in enumerate(per):
             outs.add(hash(hx) if not disc else hash(tuple(sorted(disc))))
             if disc:
@@ -147,10 +164,10 @@ def _work(rng):
         if ci in (0, len(cases) // 2) and len(samples) < 2:
             samples.append({"text": c.text, "cfg": cfg_name(per[0][0]), "bytes": per[0][2],
                             "expected": repr((c.op, c.ops))})
-    return fails, outs, reached, len(lines), samples, conservative
+    return fails, outs, reached, len(lines) + (len(retry) if retry else 0), samples, conservative
 
 
-def run_block(rep, cases, cfgs, extra_check=None, note_outcome=True, validate_tag=None, group_check=None):
+def run_block(rep, cases, cfgs, extra_check=None, note_outcome=True, validate_tag=None, group_check=None, fit_retry=False):
     """Assemble every case under every configuration and compare.  extra_check(case, cfg, hex, dec) may
     return additional discrepancies; group_check(case, [(cfg, disc, hex)...]) may return {cfg index: set} (used by
     C11).  With validate_tag the expectations are first checked against nasm (oracle.validate); unconfirmed cases
@@ -172,7 +189,7 @@ def run_block(rep, cases, cfgs, extra_check=None, note_outcome=True, validate_ta
     work = n * len(cfgs)
     nw = 1 if work < 4000 else min(hexec.NPROC, max(1, work // 4000))
     _G.update(cases=cases, cfgs=cfgs, extra_check=extra_check, group_check=group_check,
-              inner=max(1, hexec.NPROC // nw))
+              inner=max(1, hexec.NPROC // nw), fit_retry=fit_retry)
     rngs = [(i * n // nw, (i + 1) * n // nw) for i in range(nw)]
     if nw == 1:
         parts = [_work(rngs[0])]
@@ -196,7 +213,8 @@ def run_block(rep, cases, cfgs, extra_check=None, note_outcome=True, validate_ta
             a = dict(c.attrs)
             a["cfg"] = cfg_name(cfg)
             rep.fail(a, disc,
-                     {"kind": "e1", "text": c.text, "cfg": list(cfg), "exp": repr((c.op, c.ops, c.flags))},
+                     {"kind": "e1", "text": c.text, "cfg": list(cfg), "exp": repr((c.op, c.ops, c.flags)),
+                      "refit": any(x.startswith("refit") for x in disc)},
                      "%r [%s] -> %s %s; expected %s %s" % (c.text, cfg_name(cfg), hx, dtext, c.op, _short(c.ops)))
     rep.states += n
     rep.transitions = rep.evaluations
@@ -223,6 +241,17 @@ def replay(r, verbose=False, extra_check=None):
     disc, hx = evaluate(c, obs, decs, cfg)
     if extra_check is not None and hx and not disc:
         disc |= extra_check(c, cfg, hx, decs.get(hx)) or set()
+    if r.get("refit") and hx and not disc:
+        ro = hexec.run(["c64:p:cc\t%s\tk16\to15\tA%s" % (hexec.cfg_ops(cfg), hexec.esc_fast(c.text))], nproc=1)[0]
+        if hexec.is_crash(ro):
+            disc.add("refit-crash")
+        else:
+            ra = hexec.Asm(ro[-1])
+            want = ("90" + hx) if len(hx) // 2 >= 2 else hx
+            if ra.ret != 0 or ra.hex[:2 * max(ra.off - 15, 0)] != want:
+                disc.add("refit-differs")
+            if verbose:
+                print("refit:    %s (want %s)" % (ra.hex, want))
     if verbose:
         print("text:     %r  [%s]" % (c.text, cfg_name(cfg)))
         print("observed: %s" % obs)
